@@ -70,3 +70,24 @@ package planner
 //@   ensures value != nil ==> r != nil
 //@   ensures r == value || called(Cmp, 1) || value == nil
 //@   tags C08
+//@
+//@ // ===== C09 / C08: when a condition on a related object is moved from the scan up to the parent select,
+//@ // the conditions the parent already had stay: the parent's filter is replaced only by the merge of the old
+//@ // filter with the moved conditions
+//@ // (the filter helpers build new filters; they do not reach the select node - assumed)
+//@ extern filter.IsComplex(f) -> (r)
+//@   pure
+//@ extern filter.SplitByFields(f, fields) -> (a, b)
+//@   pure
+//@ func prepareScanNodeFilterForTypeJoin
+//@   assert before call#1 Merge: arg0 == old(parent.filter)
+//@   assert before call#2 Merge: arg0 == old(parent.filter) && arg1 == res(SplitByFields, 1, 1)
+//@   ensures old(parent.filter) != nil && parent.filter != old(parent.filter) ==> (called(Merge, 1) && parent.filter == res(Merge, 1, 0)) || (called(Merge, 2) && parent.filter == res(Merge, 2, 0))
+//@   tags C09 C08
+//@ // the join is driven from the related side (through its index) only when the parent's own filter is a plain
+//@ // conjunction: with an _or / _not above the relation condition the documents that satisfy another branch
+//@ // are not reachable from the index
+//@ func (*Planner).tryOptimizeJoinDirectionByFilter
+//@   assert before call#1 invertJoinDirectionWithIndex: !res(IsComplex, 1, 0)
+//@   assert before call#1 IsComplex: arg0 == parentPlan.selectNode.filter
+//@   tags C09 C07
